@@ -128,7 +128,7 @@ Print Assumptions C07_statement_total_any_output_buffer.
 
 (* non-vacuity: a device with a login and an `on` script, run through a history with a time-out *)
 Definition ex_rmatch : text -> text -> option pmatch := fun _ _ => None.
-Definition ex_compress : list text -> text := fun _ => [].
+Definition ex_compress : list text -> text := fun l => concat (map (fun t => t ++ [44%N]) l).     (* grows with its input: names joined by commas *)
 Definition ex_dev : device :=
   mk_device (bslit "d0") [mkPlug (bslit "p1") (Some (bslit "n1"))]
             [(PM_LOG_IN, [Send (bslit "login\n"); Expect (bslit "ok")]); (PM_POWER_ON, [Send (bslit "on %s\n"); Expect (bslit "done")])] 5000000 0.
@@ -144,17 +144,27 @@ Proof. vm_compute. eexists _, _. repeat split. Qed.
 Example C07_cfg_ok_example : cfg_ok ex_compress ex_dev.
 Proof.
   split; [eexists; reflexivity|]. intros i s H.
-  assert (G : forall l : text, (forall ps, opt_incl ps (sd_plugs (dv ex_dev)) -> exists str, hsprintf1 l (send_arg ex_compress (new_ctx [] ps)) = Some str /\ (length str <= Z.to_nat MAX_DEV_BUF)%nat) -> fmt_ok ex_compress (sd_plugs (dv ex_dev)) l) by (intros l Hl; exact Hl).
   cbn [dv_scripts ex_dev mk_device assoc_script] in H.
-  destruct (Z.eqb i PM_LOG_IN); [injection H as <-|destruct (Z.eqb i PM_POWER_ON); [injection H as <-|discriminate H]].
-  - split; [discriminate|]. constructor; [|constructor; [exact Logic.I|constructor]]. cbn [wf_stmt]. apply G. intros ps _.
-    eexists. split; [vm_compute; reflexivity|cbn [length]; unfold MAX_DEV_BUF; lia].
-  - split; [discriminate|]. constructor; [|constructor; [exact Logic.I|constructor]]. cbn [wf_stmt]. apply G. intros [[|p [|q r]]|] Hi.
-    + eexists. split; [vm_compute; reflexivity|cbn [length]; unfold MAX_DEV_BUF; lia].
-    + assert (p = mkPlug (bslit "p1") (Some (bslit "n1"))) by (destruct (Hi p (or_introl eq_refl)) as [<-|[]]; reflexivity). subst p.
-      eexists. split; [vm_compute; reflexivity|cbn [length]; unfold MAX_DEV_BUF; lia].
-    + eexists. split; [vm_compute; reflexivity|cbn [length]; unfold MAX_DEV_BUF; lia].
-    + eexists. split; [vm_compute; reflexivity|cbn [length]; unfold MAX_DEV_BUF; lia].
+  destruct (Z.eqb i PM_LOG_IN); [injection H as <-|destruct (Z.eqb i PM_POWER_ON); [injection H as <-|discriminate H]];
+    (split; [discriminate|]); (constructor; [|constructor; [exact Logic.I|constructor]]); cbn [wf_stmt]; intros ps _; eexists; vm_compute; reflexivity.
+Qed.
+(* the hypothesis cfg_ok is satisfiable for a device with several plugs, a RANGED script whose format contains %s, and a host-range
+   compression that really grows with the plug list (no bound on the formatted string is demanded: F38) *)
+Definition ex_dev3 : device :=
+  mk_device (bslit "d3") [mkPlug (bslit "p1") (Some (bslit "n1")); mkPlug (bslit "p2") (Some (bslit "n2")); mkPlug (bslit "p3") None]
+            [(PM_LOG_IN, [Send (bslit "login\n"); Expect (bslit "ok")]);
+             (PM_POWER_ON_RANGED, [Send (bslit "on %s\n"); ForeachPlug [Expect (bslit "([^ ]+) ok"); SetResult 1 2 []]; Expect (bslit "done")])] 5000000 0.
+Example C07_cfg_ok_ranged_example :
+  cfg_ok ex_compress ex_dev3 /\
+  send_arg ex_compress (new_ctx [] (Some (sd_plugs (dv ex_dev3) ++ sd_plugs (dv ex_dev3)))) = Some (bslit "p1,p2,p3,p1,p2,p3,").
+Proof.
+  split; [|vm_compute; reflexivity].
+  split; [eexists; reflexivity|]. intros i s H.
+  cbn [dv_scripts ex_dev3 mk_device assoc_script] in H.
+  destruct (Z.eqb i PM_LOG_IN); [injection H as <-|destruct (Z.eqb i PM_POWER_ON_RANGED); [injection H as <-|discriminate H]].
+  - split; [discriminate|]. constructor; [|constructor; [exact Logic.I|constructor]]. cbn [wf_stmt]. intros ps _. eexists. vm_compute. reflexivity.
+  - split; [discriminate|]. constructor; [cbn [wf_stmt]; intros ps _; eexists; vm_compute; reflexivity|].
+    constructor; [|constructor; [exact Logic.I|constructor]]. cbn [wf_stmt]. split; [discriminate|]. repeat split.
 Qed.
 
 (* TERMINATION MEASURE of _process_action's loop.  P bounds the length of every plug list a foreach walks (DPL), D < 8 the nesting of blocks.
